@@ -30,7 +30,7 @@ def _race_stage(c):
 CFG = {
         "extra": _race_stage,
         "harness_pkg": "c13",
-        "coq_modules": ["Wrap.C13Judge", "Wrap.SitesProofs"],
+        "coq_modules": ["Wrap.C13Judge", "Wrap.SitesProofs", "Wrap.GrpcFactsProofs"],
         "judge_module": "Wrap.C13Judge",
         "allowed_axioms": [],
         "theorems": ["C13_wrapper_equals_grpc", "C13_no_goroutine_left", "C13_unknown_method_unimplemented",
@@ -38,7 +38,7 @@ CFG = {
                      "C13_send_leaves_sender_object", "C13_metadata_copied_at_set_time", "C13_incoming_metadata_cloned",
                      "C13_every_boundary_site_copies", "C13_method_table_is_service_desc", "C13_model_repairs_match_source",
                      "C13_unwrap_fully_innermost", "C13_unwrap_fully_is_plain", "C13_unwrap_fully_idempotent",
-                     "C13_judge_sound", "C13_judge_complete",
+                     "C13_judge_sound", "C13_judge_complete", "C13_grpc_fact_table_matches_spec", "C13_grpc_assumptions_general",
                      "C13_header_on_return_v0_refuted", "C13_late_set_header_v0_refuted",
                      "C13_context_error_v0_refuted", "C13_send_after_cancel_v0_refuted", "C13_copy_on_receive_v0_refuted",
                      "C13_trailer_after_cancel_refuted", "C13_response_then_error_refuted",
